@@ -303,6 +303,7 @@ pub fn c08_leaf(env: &mut Env, leaf: &Leaf) {
         multi.dedup();
     }
     let nfaults = faults.len();
+    let mut torn_reported = false;
     env.stats.sample(|| json!({"engine": "damage", "seed": leaf.seed.name, "ops": leaf.ops.iter().map(|o| o.short()).collect::<Vec<_>>(), "wal_files": d.image.len(), "frames": d.frames.len(), "faults_enumerated": nfaults, "first_fault": faults.first().map(|f| f.1.clone())}));
     for (patch, descr, on_emb_carrier) in faults {
         let Some(img) = apply_patch(&d.image, &patch) else { continue };
@@ -353,6 +354,17 @@ pub fn c08_leaf(env: &mut Env, leaf: &Leaf) {
                             }
                         }
                     }
+                }
+                // A zeroed frame header ends the log there, with the frames that followed it still in
+                // the file. The next append starts at that point; if it is cut short by a crash (only
+                // its first k frames reach the file), the frames of the OLD entries lie right behind
+                // it. Nothing may be glued together from the two.
+                let at_frame_start = descr["kind"] == "zero-range"
+                    && descr["len"].as_u64().map(|l| l >= 7).unwrap_or(false)
+                    && d.frames.iter().any(|f| Some(f.file.as_str()) == descr["file"].as_str() && Some(f.offset as u64) == descr["offset"].as_u64());
+                if at_frame_start && !torn_reported {
+                    // (reported once per image; the enumeration of this image's faults goes on)
+                    torn_reported = torn_append_after_damage(env, leaf, &d, &dir, &img, &obs, &multi, &descr);
                 }
                 if let Err((q, p, b, why)) = genuine(&d, &obs) {
                     let emb = on_emb_carrier && (q.clone(), p, b.clone()) == emb_record();
@@ -473,6 +485,82 @@ fn frame_faults(d: &DmgImage, f: &FrameInfo) -> Vec<(Patch, serde_json::Value)> 
         }
     }
     v
+}
+
+/// See the call site in `c08_leaf`. Returns true if a violation was recorded.
+#[allow(clippy::too_many_arguments)]
+fn torn_append_after_damage(env: &mut Env, leaf: &Leaf, d: &DmgImage, dir: &std::path::Path, img: &Image, obs: &Obs, multi: &[(usize, usize)], descr: &serde_json::Value) -> bool {
+    for (total, _first) in multi {
+        let Some(len) = total.checked_sub(24) else { continue };
+        for q in obs.keys().filter(|q| q.len() == 1) {
+            let payload = crate::ops::payload(7300 + len as u32, len);
+            // the append in full, with its frames
+            let r = guarded(|| -> Option<(Image, Image, Vec<(String, usize, usize)>, u64)> {
+                set_image(dir, img);
+                reset_hooks(0, false);
+                let mut log = open_log(dir, PolicyCfg::Default).ok()?;
+                let pre = read_image(dir);
+                vh::trace_start();
+                let out = log.append_record(q, None, &payload[..]).ok()?;
+                let events = vh::trace_take();
+                vh::trace_stop();
+                drop(log);
+                let full = read_image(dir);
+                let frames: Vec<(String, usize, usize)> = events
+                    .iter()
+                    .filter_map(|e| match e {
+                        Event::BlockWrite { file_number, offset, len, .. } if *len >= 7 => Some((wal_name(*file_number), *offset, *len)),
+                        _ => None,
+                    })
+                    .collect();
+                Some((pre, full, frames, out.last_position?))
+            });
+            let Ok(Some((pre, full, frames, pos))) = r else { continue };
+            if frames.len() < 2 {
+                continue;
+            }
+            let mut appended = d.appended.clone();
+            appended.insert((q.clone(), pos, payload.to_vec()));
+            // crash after the first k frames (k = 1 .. n-1): the rest of the new entry never reached the file
+            for k in 1..frames.len() {
+                let mut cut = full.clone();
+                for (file, off, l) in &frames[k..] {
+                    let (Some(dst), Some(src)) = (cut.get_mut(file), pre.get(file)) else { continue };
+                    if src.len() >= off + l && dst.len() >= off + l {
+                        dst[*off..off + l].copy_from_slice(&src[*off..off + l]);
+                    }
+                }
+                // a file created by the append and holding none of its first k frames: as created (zeroes)
+                env.stats.count("torn_append_after_zeroed_header", 1);
+                env.stats.evaluations += 1;
+                env.stats.transitions += 2;
+                let (res, _) = open_image(dir, &cut, TICK_BUDGET);
+                let Opened::Ok(obs2) = res else { continue };
+                for (qq, qo) in &obs2 {
+                    let mut prev: Option<u64> = None;
+                    for (p, b) in &qo.recs {
+                        let dup = prev.map(|x| *p <= x).unwrap_or(false);
+                        prev = Some(*p);
+                        if dup || !appended.contains(&(qq.clone(), *p, b.clone())) {
+                            // D10 is identified by this history (zeroed frame header, open, append cut
+                            // short after k of its frames, open): a record that was never appended and
+                            // that the open BEFORE the torn append did not return. (One it did return is
+                            // the main oracle's business, and a position going backwards is not D10.)
+                            let stale_tail = !dup && !obs.get(qq).map(|o| o.recs.iter().any(|r| r.0 == *p && r.1 == *b)).unwrap_or(false);
+                            env.stats.violation(Violation {
+                                property: "C08".into(),
+                                signature: if stale_tail { "torn-append-completed-by-stale-frames".into() } else { "phantom-record-after-torn-append".into() },
+                                what: format!("after fault {} and a successful open, an append of {} bytes to {} (position {}) is cut short by a crash after {} of its {} frames; the next open returns queue {} position {} with a {}-byte payload {} that was never appended{}", descr, len, q, pos, k, frames.len(), qq, p, b.len(), hex(&b[..b.len().min(12)]), if stale_tail { " (the new entry's first frames completed by frames of an old entry that lay behind the zeroed header)" } else { "" }),
+                                case: case_json(leaf, descr.clone()),
+                            });
+                            return true;
+                        }
+                    }
+                }
+            }
+        }
+    }
+    false
 }
 
 /// The reduced per-frame fault menu used for PAIRS of faults in two different frames: each other
